@@ -56,7 +56,8 @@ def case_st(draw):
         size = gen.size_of(shape)
         vals = draw(st.lists(st.integers(-20, 20), min_size=size, max_size=size))
         return {"mode": "plain", "shape": list(shape), "values": [v / 4.0 for v in vals],
-                "target": draw(st.sampled_from(["str", "path", "stringio", "file"])),
+                "target": draw(st.sampled_from(["str", "path", "stringio", "file", "pipe"])),
+                "remarks": draw(st.booleans()),
                 "delimiter": draw(st.sampled_from([" ", ","]))}
     desc = draw(gen.poly_desc(kinds="if", max_terms=5, max_exp=3, max_ndim=3))
     if draw(st.integers(0, 3)) == 0 and desc["terms"]:
@@ -88,7 +89,7 @@ def case_st(draw):
             "footer": draw(st.sampled_from(["", "", "the end"])),
             "comments": draw(st.sampled_from(["# ", "# ", "% ", "//"])),
             "writer": draw(st.sampled_from(["numpoly", "numpoly", "numpy"])),
-            "target": draw(st.sampled_from(["str", "path", "stringio", "file", "str", "path", "gz", "bz2", "xz", "lzma", "bytesio", "binary-file", "lines", "generator"])),
+            "target": draw(st.sampled_from(["str", "path", "stringio", "file", "str", "path", "gz", "bz2", "xz", "lzma", "bytesio", "binary-file", "lines", "generator", "pipe"])),
             "encoding": draw(st.sampled_from([None, None, None, "utf-8", "utf-16", "latin1"])),
         })
     return case
@@ -116,6 +117,15 @@ def tolerance(fmt):
     return {"%.18e": 1e-15, "%.6f": 1e-6, "%g": 1e-5, "%d": 0.0}[fmt]
 
 
+def _through_pipe(loader, text, kw):
+    """Read from a stream that can neither tell nor seek (numpy.loadtxt reads those)."""
+    r, w = os.pipe()
+    with os.fdopen(w, "w") as wf:
+        wf.write(text)  # (small: fits the pipe buffer)
+    with os.fdopen(r, "r") as rf:
+        return loader(rf, **kw)
+
+
 def check_case(case, ctx):
     import numpoly
 
@@ -132,6 +142,11 @@ def check_case(case, ctx):
             path = os.path.join(tmp, "plain.txt")
             numpy.savetxt(path, arr, delimiter=case["delimiter"])
             text = open(path).read()
+            if case.get("remarks"):
+                # ordinary comment lines as people write them, with and without a blank after the marker
+                text = "#remark one\n# remark two\n" + text
+                with open(path, "w") as fh:
+                    fh.write(text)
             kw = {"delimiter": case["delimiter"]} if case["delimiter"] != " " else {}
 
             def load(loader):
@@ -142,6 +157,8 @@ def check_case(case, ctx):
                     return loader(pathlib.Path(path), **kw)
                 if t == "stringio":
                     return loader(io.StringIO(text), **kw)
+                if t == "pipe":
+                    return _through_pipe(loader, text, kw)
                 with open(path) as fh:
                     return loader(fh, **kw)
 
@@ -242,7 +259,7 @@ def check_case(case, ctx):
             # numpy.savetxt compresses by file name and numpy.loadtxt reads such files transparently
             path = path + "." + t
         try:
-            if t in ("str", "gz", "bz2", "xz", "lzma", "lines", "generator"):
+            if t in ("str", "gz", "bz2", "xz", "lzma", "lines", "generator", "pipe"):
                 writer(path, p, **kw)
             elif t == "bytesio":
                 buf = io.BytesIO()
@@ -283,6 +300,8 @@ def check_case(case, ctx):
                 q = numpoly.loadtxt([line + "\n" for line in text.split("\n")], **lkw)
             elif t == "generator":
                 q = numpoly.loadtxt((line for line in text.split("\n")), **lkw)
+            elif t == "pipe":
+                q = _through_pipe(numpoly.loadtxt, text, lkw)
             elif t == "bytesio":
                 with open(path, "rb") as fh:
                     q = numpoly.loadtxt(io.BytesIO(fh.read()), **lkw)
